@@ -904,6 +904,10 @@ func (o *ovsdbClient) MonitorCancel(ctx context.Context, cookie MonitorCookie) e
 func (o *ovsdbClient) Monitor(ctx context.Context, monitor *Monitor) (MonitorCookie, error) {
 	cookie := newMonitorCookie(o.primaryDBName)
 	db := o.databases[o.primaryDBName]
+	// lock order: rpcMutex before monitorsMutex, as connect() does when it
+	// restarts the monitors
+	o.rpcMutex.RLock()
+	defer o.rpcMutex.RUnlock()
 	db.monitorsMutex.Lock()
 	defer db.monitorsMutex.Unlock()
 	return cookie, o.monitor(ctx, cookie, false, monitor)
@@ -923,15 +927,11 @@ func newMonitorRequest(data *mapper.Info, fields []string, conditions []ovsdb.Co
 	return &ovsdb.MonitorRequest{Columns: columns, Where: conditions, Select: ovsdb.NewDefaultMonitorSelect()}, nil
 }
 
-// monitor must only be called with a lock on monitorsMutex
+// monitor must only be called with a lock on rpcMutex (at least for reading)
+// and, acquired after it, a lock on monitorsMutex
 //
 //gocyclo:ignore
 func (o *ovsdbClient) monitor(ctx context.Context, cookie MonitorCookie, reconnecting bool, monitor *Monitor) error {
-	// if we're reconnecting, we already hold the rpcMutex
-	if !reconnecting {
-		o.rpcMutex.RLock()
-		defer o.rpcMutex.RUnlock()
-	}
 	if o.rpcClient == nil {
 		return ErrNotConnected
 	}
@@ -1157,9 +1157,11 @@ func (o *ovsdbClient) watchForLeaderChange() error {
 	m.Method = ovsdb.ConditionalMonitorRPC
 	m.Tables = []TableMonitor{{Table: "Database"}}
 	db := o.databases[serverDB]
+	o.rpcMutex.RLock()
 	db.monitorsMutex.Lock()
-	defer db.monitorsMutex.Unlock()
 	err := o.monitor(context.Background(), newMonitorCookie(serverDB), false, m)
+	db.monitorsMutex.Unlock()
+	o.rpcMutex.RUnlock()
 	if err != nil {
 		return err
 	}
